@@ -349,7 +349,7 @@ def main():
     variants = P.get("variants", [""])
     if tier == "quick" and len(variants) > 1:
         variants = [variants[0], variants[1 + seed % (len(variants) - 1)]]
-    all_r = []; sums = []; harness_notes = []; env_error = False; faults_fired = {}
+    all_r = []; sums = []; harness_notes = []; env_error = False; faults_fired = {}; gen_crashes = []
     timeout = P.get("timeout", {}).get(tier, 1500 if tier == "quick" else 7200)
     for fam in fams:
       for variant in variants:
@@ -394,6 +394,8 @@ def main():
                     notes.append("slice %s stopped after 40 aborted cases (each reported)" % x["args"][-1])
                 for y in r: y["variant"] = variant; y["bin"] = binp
                 all_r += r; sums.append(s)
+                mg = re.search(r"generator_crash=(\S+)", x["herr"])
+                if mg and mg.group(1) not in gen_crashes: gen_crashes.append(mg.group(1))
                 m = re.search(r"alloc_faults_fired=(\d+)", x["herr"])
                 if m and int(m.group(1)): faults_fired[fam] = faults_fired.get(fam, 0) + int(m.group(1))
     tot = merge_summaries(sums)
@@ -488,6 +490,14 @@ def main():
                                     explanation="the correspondence between the Lean model (about which the theorems are proved) and the code no longer "
                                                 "checks at these cases, so the property is no longer shown to hold; no input violating the property itself was found"),
                                " no-failing-input-found"))
+    if gen_crashes:
+        # the library crashed (or hung) while a generator was calling it to build inputs for later cases (e.g. decoding what the
+        # encoder had just produced): a crash of the library on a generator-made input that no single case line carries
+        concrete = [v for v in violations if v[1] == ""]
+        violations.append((dict(kind="GENERATOR-CRASH", crashes=gen_crashes[:8],
+                                explanation="the library crashed or hung between two cases, inside a generator that calls the library to build its next "
+                                            "inputs; the classes and the index of the last completed case of the slice are listed"
+                                            + ("" if concrete else "; no single case line reproduces it")), "" if concrete else " no-failing-input-found"))
     if (failed_thms or src_hits or not proofs_ok) and not [v for v in violations if v[1] == ""]:
         violations.append((dict(kind="PROOF", theorems=failed_thms, source_audit=src_hits, build_ok=proofs_ok,
                                 axioms={t: ax.get(t, (False, ["?"]))[1] for t in theorems}, build_log=blog[-3000:] if not proofs_ok else "",
